@@ -159,6 +159,17 @@ end Sif.Spec.C18
 namespace Sif.Spec.C18
 open Sif Sif.Clp
 
+/-- `epochSharesOK` with every provider's update height taken from the harness's ledger of accepted creates, adds
+    and removals (where it has an entry) instead of the stored record: a provider past the lock period by its own
+    messages gets its share, whatever a hook wrote into the record in between. -/
+def epochSharesByLedgerOK (pre : St) (changes : List (String × String × Nat × Nat))
+    (ledger : List (String × String × Int)) : Bool :=
+  epochSharesOK { pre with lps := pre.lps.map (fun pe =>
+    (pe.1, pe.2.map (fun ae =>
+      (ae.1, match ledger.find? (fun l => l.1 == pe.1 && l.2.1 == ae.1) with
+             | some l => { ae.2 with lastUpdated := l.2.2 }
+             | none => ae.2)))) } changes
+
 /-- "accounts that are not eligible providers receive nothing", judged against the harness's own ledger of the adds the
     implementation accepted (pool symbol, address, height of the last accepted create / add) instead of the stored
     `LastUpdatedBlock`: an account whose balance of a pool's asset grew during the epoch hook last added to that pool
